@@ -322,8 +322,8 @@ def _all_families():
 
 
 def _anchor_view(ctx):
-    if ctx.tier != "quick":
-        return None          # the thorough tier validates every family under the properties its mutants name
+    if ctx.tier not in ("quick", "thorough"):
+        return None          # runs on mutants: every family is validated under the properties its mutants name
     files = _anchor_files().get(ctx.prop, set())
     have = {i.key for i in ctx.instances}
     insts, broken, analysed = _families_on_tree(ctx)
